@@ -1,4 +1,5 @@
 import BFL.Proofs.LifecycleHist
+import BFL.Proofs.LifecycleComm
 /-
 C09 — filter lifecycle: ordered epochs, honoured commands, guaranteed termination.
 
@@ -197,6 +198,47 @@ theorem after_wait_quiescent (cfg : Cfg) (as rest : List Act) (hj : (runAll cfg 
   refine ⟨hd', ?_, fun hr => (invq_all cfg (as ++ rest)).2 hd' hr⟩
   rw [runAll, exec_append]
   exact exec_done_work cfg rest _ hd
+
+/-- `wait()` returns only once the filtering thread has ended: if the join is in the history,
+the thread's final store precedes it (so no callback of the thread — initialisation, step, run
+condition, schedule point — can come after the return of `wait()`). -/
+theorem wait_implies_ended (cfg : Cfg) (as : List Act) (later earlier : List Ev)
+    (h : (runAll cfg as).hist = later ++ Ev.joined :: earlier) : Ev.thrDone ∈ earlier := by
+  obtain ⟨as', _, hh⟩ := hist_prefix cfg as later _ earlier h
+  have hq := (invj_all cfg as').1
+  rw [hh] at hq
+  have := hq (by simp)
+  simpa [List.dropWhile] using this
+
+/-- A `boot()` that fails to create the thread leaves a filter on which commands only set flags:
+nothing is ever initialised or stepped, and `wait()` returns. -/
+theorem boot_failed_inert (cfg : Cfg) (as : List Act) :
+    (exec cfg St.bootFailed as).pc = PC.done ∧ workEvents (exec cfg St.bootFailed as).hist = [] ∧
+    ((exec cfg St.bootFailed as).joined = true ∨
+      (step cfg (exec cfg St.bootFailed as) (Act.c Cmd.wait)).joined = true) := by
+  have hd : (exec cfg St.bootFailed as).pc = PC.done := exec_done cfg as _ rfl
+  have hw := exec_done_work cfg as St.bootFailed rfl
+  refine ⟨hd, by simpa [St.bootFailed, workEvents] using hw, ?_⟩
+  generalize exec cfg St.bootFailed as = s at *
+  simp only [step, ctl, hd]
+  cases hj' : s.joined <;> simp_all
+
+/-! ## Why scheduling at the hook points loses nothing
+
+Between two flag reads of one loop test the implementation offers no place to hold the thread.
+A command issued there commutes with the thread's access unless it writes the very flag being
+read (`Indep`), so it can be moved across the silent accesses to the neighbouring place where
+the harness can issue it; the state — including the whole history — is the same. -/
+
+theorem command_commutes_with_silent_access (cfg : Cfg) (s : St) (x : Cmd) (c : Bool)
+    (h : Indep s.pc x) :
+    step cfg (step cfg s (Act.c x)) (Act.t c) = step cfg (step cfg s (Act.t c)) (Act.c x) :=
+  cmd_commutes cfg s x c h
+
+theorem reboot_second_store_commutes (cfg : Cfg) (s : St) (c : Bool)
+    (h : s.pc = PC.zero ∨ s.pc = PC.incr ∨ s.pc = PC.inB ∨ s.pc = PC.inC ∨ s.pc = PC.outC ∨ s.pc = PC.outD) :
+    step cfg (step cfg s Act.fin) (Act.t c) = step cfg (step cfg s (Act.t c)) Act.fin :=
+  fin_commutes cfg s c h
 
 /-! ## The repaired defect (fix 56cf611), kept as documentation
 
